@@ -13,6 +13,7 @@ import (
 	"testing"
 	"time"
 
+	"github.com/scionproto/scion/pkg/slayers"
 	"github.com/scionproto/scion/pkg/snet"
 
 	"example.com/scion-time/base/crypto"
@@ -272,6 +273,10 @@ func c15World(t *testing.T, r *simcore.Run) any {
 	if lossy {
 		dropRate = uint64(50 + tp.Intn(400, "droprate"))
 	}
+	kodRate := uint64(0)
+	if tp.Bool(1, 3, "kod") {
+		kodRate = uint64(100 + tp.Intn(500, "kodrate"))
+	}
 	round := 0
 	type obs struct {
 		client, router int
@@ -287,6 +292,14 @@ func c15World(t *testing.T, r *simcore.Run) any {
 		if dropRate > 0 && tp.Bool(dropRate, 1000, "drop?") {
 			r.Fault("scion-packet-lost")
 			return true, nil
+		}
+		if kodRate > 0 && !p.toSrv && p.isUDP && len(p.pld) >= 48 && tp.Bool(kodRate, 1000, "kod?") {
+			// the reply reaches the client as a kiss-of-death (stratum 0): that attempt fails at
+			// once, not at the deadline; what an earlier attempt of the round measured stands
+			if raw := scRebuild(p, func(s *slayers.SCION, u *slayers.UDP, pld *[]byte) { (*pld)[1] = 0 }); raw != nil {
+				r.Fault("reply-turned-kiss-of-death")
+				return false, raw
+			}
 		}
 		return false, nil
 	}
@@ -392,6 +405,19 @@ func c15World(t *testing.T, r *simcore.Run) any {
 				if err == nil {
 					r.Fail("C15", "round/no-path-no-error", "%s: no path offered, yet no error", line)
 					return
+				}
+				// nothing is offered, so no client's previous path is: each one that was in
+				// interleaved mode is reset together with its filter, whatever the round reports
+				for i, c := range clients {
+					if !inIL[i] {
+						continue
+					}
+					if c.InInterleavedMode() || filters[i].resets == resets0[i] {
+						r.Fail("C15", "sticky/not-reset", "%s: client %d was in interleaved mode on %q, no path at all is offered, and it was not reset together with its filter (still interleaved: %v, filter resets: %d)",
+							line, i, prevFP[i], c.InInterleavedMode(), filters[i].resets-resets0[i])
+						return
+					}
+					r.Probe("reset-in-round-without-paths")
 				}
 				errRounds++
 				r.Probe("no-path-error")
